@@ -7,6 +7,30 @@ from pathlib import Path
 VERIF = Path(__file__).resolve().parents[1]
 
 CHECKS = {
+    "C01": dict(
+        category="exploration", design_ref="DESIGN.md §2 C01",
+        technique="controlled scheduling of real committer threads (bounded-preemption DFS, PCT, random) + per-pointer-flip delta oracle by an independent reader; multi-process stress",
+        text="Real commits (append, multi-append, delete_files, expire_snapshots, delete_snapshot) of 2-4 real threads "
+             "run under a cooperative scheduler with a gate before every storage operation (local) / S3 request (CAS "
+             "double); all schedules with <=k preemptions are enumerated for 2 committers (k=1 all pairs, k=2 key pairs "
+             "in quick; k=2 all, k=3 key pairs in thorough), 3-4 committers under PCT/random. Every successful pointer "
+             "write is attributed to its actor and the published metadata must differ from the immediately preceding "
+             "pointer target by exactly that actor's operation; acked <=> exactly one flip, raised <=> none; final "
+             "chain linear with increasing sequence numbers. Thorough adds 4-8 OS processes x 25 commits with injected "
+             "L1 delays (final-state oracle).",
+        note="Schedules beyond the preemption bound / PCT depth are not explored; S3 = strongly consistent double.",
+    ),
+    "C02": dict(
+        category="exploration", design_ref="DESIGN.md §2 C02",
+        technique="controlled scheduling of reader x writer threads + snapshot-interval oracle (each read equals a version current within its window; per-handle monotone)",
+        text="7 read API variants x 6 writer kinds (incl. explicit rollback and a commit failed at the pointer write) are "
+             "scheduled with gates at every storage op plus os.write/os.replace inside the writer's publish sequence; all "
+             "<=1-preemption schedules for every pair (quick; <=2 in thorough and for key pairs), 2 readers x 1-3 writers "
+             "under PCT/random. Ground truth rows of each version are taken by the independent reader right after each "
+             "pointer flip; every read must equal a version current at some instant of its window and never move "
+             "backwards on a handle; a read that raises with only writers active is a violation.",
+        note="Pool threads of scan(parallel=n) run unscheduled within their parent's step.",
+    ),
     "C10": dict(
         category="exploration", design_ref="DESIGN.md §2 C10",
         technique="input-space monitor: pointer byte grammar x histories with uncommitted metadata files x follow-up ops, state compared with the committed state seen by an independent reader",
